@@ -31,6 +31,7 @@ class RecHandler {
   mp::NLHeader h;
   std::string viol_class, viol_key, viol_detail;   // first assertion failure
   long notifications = 0;
+  long max_notifications = 0;                      // 0 = unlimited; else a reader that keeps notifying (a loop over the same input) is stopped
   long dup_items = 0;                              // statistic only: same item notified again
   bool ended = false;
   bool want_items = false;
@@ -41,6 +42,13 @@ class RecHandler {
   struct Node { std::string head; std::vector<int> kids; };
   std::vector<Node> pool;
 
+  struct Runaway {};                               // thrown out of the reader when the notification budget is used up
+  void count() {
+    if (++notifications > max_notifications && max_notifications > 0) {
+      fail("NOTIFICATION_RUNAWAY", "budget", "more than " + std::to_string(max_notifications) + " notifications for this input: the reader is looping");
+      throw Runaway();
+    }
+  }
   void fail(const char* cls, const std::string& key, const std::string& detail) {
     if (!viol_class.empty()) return;
     viol_class = cls; viol_key = key; viol_detail = detail + " | after: " + trace.tail(6);
@@ -345,7 +353,7 @@ class RecHandler {
 
   std::string dc(double v) const { return dbl_canon(v, norm_zero); }
   static std::string sref(fmt::StringRef s) { return s.size() ? std::string(s.data(), s.size()) : std::string(); }
-  void note(const std::string& s) { ++notifications; trace.add(s); }
+  void note(const std::string& s) { count(); trace.add(s); }
   E mk(std::string head) { pool.push_back(Node{std::move(head), {}}); E e; e.id = (int)pool.size() - 1; return e; }
   void ser_into(int id, std::string& out) const {
     const Node& n = pool[(size_t)id];
@@ -395,7 +403,7 @@ class RecHandler {
   }
   bool pending_ok(long serial, const char* who) {
     need_header(who);
-    ++notifications;
+    count();
     if (pend.kind == P_NONE || pend.serial != serial) {
       fail("NESTING", std::string(who) + ".stale-handler", std::string(who) + " on a sequence that is not the current one");
       return false;
@@ -455,7 +463,7 @@ class RecHandler {
     return begin_frame(F_ARGS, n, "(o" + std::to_string(op));
   }
   void add_arg(long serial, E e) {
-    ++notifications;
+    count();
     if (frames.empty() || frames.back().serial != serial) {
       fail("NESTING", "AddArg.not-innermost", "AddArg on a frame that is not the innermost open one");
       return;
@@ -468,7 +476,7 @@ class RecHandler {
     trace.add("a");
   }
   void pl_value(long serial, double v, bool slope) {
-    ++notifications;
+    count();
     if (frames.empty() || frames.back().serial != serial || frames.back().kind != F_PL) {
       fail("NESTING", "PLTerm.not-innermost", "AddSlope/AddBreakpoint on a frame that is not the innermost open one");
       return;
